@@ -90,6 +90,12 @@ func RunHarness(P *Program, sol *Solver, fn *ssa.Function, params map[string]str
 		}
 		prefix := work[len(work)-1]
 		work = work[:len(work)-1]
+		if sol.dead {
+			if err := sol.Restart(); err != nil {
+				jr.Truncated = true
+				break
+			}
+		}
 		pr, pending := runPath(P, sol, fn, params, prefix, opts, funcs)
 		jr.Paths = append(jr.Paths, pr)
 		jr.Steps += pr.Steps
